@@ -55,6 +55,13 @@ pub enum Source {
         strategy: fn(Tier) -> BoxedStrategy<Scenario>,
         cases: fn(Tier) -> u32,
     },
+    /// for every generated scenario: the execution as generated, then one execution for every
+    /// (thread other than the controller, k <= FREEZE_MAX_POINTS) in which that thread is suspended
+    /// for good at its k-th scheduling point while the others run on (C18)
+    FreezeSweep {
+        strategy: fn(Tier) -> BoxedStrategy<Scenario>,
+        cases: fn(Tier) -> u32,
+    },
     /// a finite family enumerated completely; `index` picks the shard's share
     Exhaustive {
         enumerate: fn(Tier) -> Box<dyn Iterator<Item = Scenario>>,
@@ -252,6 +259,9 @@ struct Acc<'a> {
 /// many scheduler steps the case is reported as small as it has got (stuck executions run to the
 /// livelock threshold or the step budget, so a thousand candidates can cost minutes).
 const SHRINK_STEP_BUDGET: u64 = 25_000_000;
+
+/// freeze sweep: a thread is frozen at each of its first this-many scheduling points
+const FREEZE_MAX_POINTS: u64 = 400;
 
 impl<'a> Acc<'a> {
     /// Evaluates one case.  Returns the findings that are *not* covered by a known finding.
@@ -463,6 +473,53 @@ pub fn run_prop(
                             shrunk: false,
                         });
                         break;
+                    }
+                }
+            }
+            Source::FreezeSweep { strategy, cases } => {
+                use proptest::strategy::{Strategy, ValueTree};
+                let n = ((cases(tier) as f64) * scale).ceil().max(1.0) as u32;
+                let rng = TestRng::from_seed(RngAlgorithm::ChaCha, &seed_bytes(seed, def.id, part.name, shard));
+                let mut runner = TestRunner::new_with_rng(Config { failure_persistence: None, ..Config::default() }, rng);
+                let strat = with_unwinding(strategy(tier));
+                acc.rep.systematic_parts.push(part.name.to_string());
+                'fscen: for _ in 0..n {
+                    let sc = match strat.new_tree(&mut runner) {
+                        Ok(t) => t.current(),
+                        Err(_) => continue,
+                    };
+                    let (unknown, ex) = acc.eval(part, &sc, true);
+                    *acc.rep.counters.entry("freeze_sweep_scenarios".into()).or_insert(0) += 1;
+                    let mut failing: Option<Scenario> = if unknown.is_empty() { None } else { Some(sc.clone()) };
+                    if failing.is_none() {
+                        'sweep: for th in ex.outcome.threads.iter().filter(|t| t.tid != 0) {
+                            if th.steps > FREEZE_MAX_POINTS {
+                                *acc.rep.counters.entry("freeze_sweep_threads_truncated".into()).or_insert(0) += 1;
+                            }
+                            for k in 1..=th.steps.min(FREEZE_MAX_POINTS) {
+                                let mut c = sc.clone();
+                                c.opts.freeze = Some((th.tid, k));
+                                let (unknown, _) = acc.eval(part, &c, true);
+                                if !unknown.is_empty() {
+                                    failing = Some(c);
+                                    break 'sweep;
+                                }
+                            }
+                        }
+                    }
+                    if let Some(c) = failing {
+                        acc.failed = true;
+                        let c = if no_shrink() { c } else { minimize(&mut acc, part, c) };
+                        let (unknown, ex) = acc.eval(part, &c, false);
+                        acc.rep.violations.push(ViolationReport {
+                            part: part.name.to_string(),
+                            findings: unknown,
+                            trace_rle: rle(&ex.outcome.trace),
+                            verdict: format!("{:?}", ex.outcome.verdict),
+                            scenario: c,
+                            shrunk: true,
+                        });
+                        break 'fscen;
                     }
                 }
             }
